@@ -227,11 +227,20 @@ def ref_validate(framing: str, req: dict, data: bytes) -> bool:
         want = req["value"] if fc == 6 else req["count"]
         return v == (want & 0xFFFF)
     if framing == "aa55":
-        if len(data) < 9:
-            return False
-        if len(data) != data[6] + 9:
-            return False
-        if ((data[4] << 8) | data[5]) != aa55_response_type(req["cmd"]):
-            return False
-        return sum16(data[:-2]) == ((data[-2] << 8) | data[-1])
+        return ref_invalid_clauses_aa55(req, data) == []
     raise ValueError(framing)
+
+
+def ref_invalid_clauses_aa55(req: dict, data: bytes) -> list:
+    """The clauses of C01 an AA55 answer breaks (empty list: well-formed)."""
+    bad = []
+    if len(data) < 9 or len(data) != data[6] + 9:
+        bad.append("length")
+        return bad
+    if ((data[4] << 8) | data[5]) != aa55_response_type(req["cmd"]):
+        bad.append("type")
+    if req["cmd"] == 0x011A and len(req["payload"]) == 3 and data[6] != 2 * req["payload"][2]:
+        bad.append("payload-length")   # 'a read answer carries exactly 2 x count payload bytes'
+    if sum16(data[:-2]) != ((data[-2] << 8) | data[-1]):
+        bad.append("checksum")
+    return bad
